@@ -285,7 +285,8 @@ fn plain_cases(tier: Tier) -> Vec<Case> {
                 for a in first0 {
                     for b in first1 {
                         for c in first1 {
-                            v.push(make_case(&[vec![a], vec![b], vec![c, L::Ping]], cause, Resolver::Halt, mb, Some(4)));
+                            v.push(make_case(&[vec![a], vec![b], vec![c, L::Ping]], cause, Resolver::Halt, mb, None));
+                            v.push(make_case(&[vec![a, L::CallAddr], vec![b], vec![c]], cause, Resolver::JoinTwice, mb, Some(5)));
                         }
                     }
                 }
